@@ -945,6 +945,9 @@ def eval_call(engine, st, node):
             if ext is not None:
                 return ext
         return method_call(engine, st, base, bv, meth, node)
+    ext = engine.external(st, "call:" + ast.unparse(f), _args(engine, st, node), node, _kwargs(engine, st, node))
+    if ext is not None:
+        return ext
     raise Unsupported("call of computed function")
 
 
